@@ -34,21 +34,31 @@ func tick() int64 { return atomic.AddInt64(&clock, 1) }
 // pipeCap returns the capacity of the watcher's publish pipe (read by reflection so that the
 // barriers keep working if the buffer size is changed); 10 if it cannot be determined.
 func pipeCap(pub any) int {
+	n, _ := pipeCapKnown(pub)
+	return n
+}
+
+// pipeCapKnown also tells whether the capacity could be read (a publisher with exactly one channel field).
+func pipeCapKnown(pub any) (int, bool) {
 	v := reflect.ValueOf(pub)
 	for v.Kind() == reflect.Ptr || v.Kind() == reflect.Interface {
 		if v.IsNil() {
-			return 10
+			return 10, false
 		}
 		v = v.Elem()
 	}
 	if v.Kind() == reflect.Struct {
+		n, found := 0, 0
 		for i := 0; i < v.NumField(); i++ {
 			if f := v.Field(i); f.Kind() == reflect.Chan {
-				return f.Cap()
+				n, found = f.Cap(), found+1
 			}
 		}
+		if found == 1 {
+			return n, true
+		}
 	}
-	return 10
+	return 10, false
 }
 
 type pubRec struct{ called, returned int64 }
@@ -120,7 +130,8 @@ func concurrentHistory(s sink.Sink, rng *rand.Rand, sample bool) {
 		initial[c] = w.m[c].pub
 	}
 	locked := append([]int(nil), w.m[0].locked...)
-	capN := int64(pipeCap(w.pubs[0]))
+	capInt, capKnown := pipeCapKnown(w.pubs[0])
+	capN := int64(capInt)
 
 	// concurrent phase
 	K := 12 + rng.Intn(30)
@@ -286,10 +297,27 @@ func concurrentHistory(s sink.Sink, rng *rand.Rand, sample bool) {
 	// bounds
 	L := func(c int, t int64) int64 { // newest version certainly consumed before stamp t
 		best := initial[c]
-		for k := range recs[c] {
-			j := int64(k) + capN + 1 // once this later publish has returned, publish k has left the pipe
-			if j < int64(len(recs[c])) && recs[c][j].returned != 0 && recs[c][j].returned < t {
-				best = initial[c] + int64(k) + 1
+		// (a) FIFO pipe of known capacity: once a publish capacity+1 positions later has returned,
+		// publish k has left the pipe (only if the capacity could be read)
+		if capKnown {
+			for k := range recs[c] {
+				j := int64(k) + capN + 1
+				if j < int64(len(recs[c])) && recs[c][j].returned != 0 && recs[c][j].returned < t {
+					best = initial[c] + int64(k) + 1
+				}
+			}
+		}
+		// (b) whatever the pipe looks like: a registered event of this channel that was handed over
+		// after publish k had returned, and completely handled before t, made the watcher take
+		// everything published for the channel until then (that is how it learns the "newest" state)
+		for _, e := range events {
+			if e.Ch != c || e.D == 0 || e.D >= t {
+				continue
+			}
+			for k := range recs[c] {
+				if recs[c][k].returned != 0 && recs[c][k].returned < e.H && initial[c]+int64(k)+1 > best {
+					best = initial[c] + int64(k) + 1
+				}
 			}
 		}
 		return best
